@@ -130,7 +130,13 @@ status_t Thread :: StartInternalThreadAuxAux()
 # if !defined(MUSCLE_NO_EXCEPTIONS)
    try {
 # endif
+#ifdef MUSCLE_VERIF_HOOKS
+      MUSCLE_VERIF_YIELD(MUSCLE_VERIF_THREAD_SPAWN, this);    // the controlled scheduler expects one more thread to announce itself
+#endif
       _thread = std::thread(InternalThreadEntryFunc, this);
+#ifdef MUSCLE_VERIF_HOOKS
+      MUSCLE_VERIF_YIELD(MUSCLE_VERIF_THREAD_SPAWNED, this);  // returns once the child has reached MUSCLE_VERIF_THREAD_START
+#endif
       return B_NO_ERROR;
 # if !defined(MUSCLE_NO_EXCEPTIONS)
    }
@@ -222,6 +228,10 @@ void Thread :: SignalAux(int whichSocket)
          {
             const char junk = 'S';
             (void) send_ignore_eintr(fd, &junk, sizeof(junk), 0);
+#ifdef MUSCLE_VERIF_HOOKS
+            // a signal byte was written: it becomes readable on the other end of the pair, ie on the socket of the thread being signalled
+            MUSCLE_VERIF_YIELD(MUSCLE_VERIF_SEM_POST, &_threadData[(whichSocket==MESSAGE_THREAD_OWNER)?MESSAGE_THREAD_INTERNAL:MESSAGE_THREAD_OWNER]);
+#endif
          }
       }
    }
@@ -281,6 +291,16 @@ status_t Thread :: WaitForNextMessageAux(ThreadSpecificData & tsd, MessageRef & 
    {
       const int msgfd = tsd._messageSocket.GetFileDescriptor();
       if (msgfd < 0) return B_BAD_OBJECT;  // semi-paranoia
+#ifdef MUSCLE_VERIF_HOOKS
+      {
+         // Under a controlled scheduler the blocking happens inside the scheduler: it parks us until our signal socket is readable
+         // (MUSCLE_VERIF_GRANTED; nothing is consumed, the recursive call below absorbs the bytes as usual) or, for a timed wait,
+         // until it decides to fire the timeout (MUSCLE_VERIF_FAIL).  User-registered sockets are not watched in that case.
+         const int vr = MUSCLE_VERIF_HOOK((wakeupTime == MUSCLE_TIME_NEVER) ? MUSCLE_VERIF_SEM_WAIT : MUSCLE_VERIF_SEM_TIMEDWAIT, &tsd, 0);
+         if (vr == MUSCLE_VERIF_FAIL)    return B_TIMED_OUT;
+         if (vr == MUSCLE_VERIF_GRANTED) return WaitForNextMessageAux(tsd, ref, 0, optRetNumMessagesLeftInQueue);
+      }
+#endif
 
       // block until either
       //   (a) a new-message-signal-byte wakes us, or
@@ -392,6 +412,9 @@ status_t Thread :: WaitForInternalThreadToExit()
 # if !defined(MUSCLE_NO_EXCEPTIONS)
       try {
 # endif
+#ifdef MUSCLE_VERIF_HOOKS
+         MUSCLE_VERIF_YIELD(MUSCLE_VERIF_THREAD_JOIN, this);  // parks the caller until the internal thread has passed MUSCLE_VERIF_THREAD_EXIT
+#endif
          _thread.join();
 # if !defined(MUSCLE_NO_EXCEPTIONS)
       }
@@ -426,6 +449,10 @@ Thread * Thread :: GetCurrentThread()
 // This method is here to 'wrap' the internal thread's virtual method call with some standard setup/tear-down code of our own
 void Thread::InternalThreadEntryAux()
 {
+#ifdef MUSCLE_VERIF_HOOKS
+   MUSCLE_VERIF_YIELD(MUSCLE_VERIF_THREAD_START, this);  // a controlled scheduler adopts this thread here and decides when it starts to run
+#endif
+
 #if defined(__linux__)
    _threadTid = syscall(SYS_gettid);  // was: gettid(), but some versions of libc didn't define that properly
 #endif
@@ -462,6 +489,10 @@ void Thread::InternalThreadEntryAux()
    }
 
    _threadStackBase = NULL;
+
+#ifdef MUSCLE_VERIF_HOOKS
+   MUSCLE_VERIF_YIELD(MUSCLE_VERIF_THREAD_EXIT, this);   // must stay the last statement: from here on a joiner may proceed
+#endif
 }
 
 Thread::muscle_thread_key Thread :: GetCurrentThreadKey()
